@@ -1,5 +1,16 @@
+//! Drivers for the system-level properties: C07 (simulator), C11 (system transformations),
+//! C17 (cone of influence).
+mod c07;
+mod c11;
+mod c17;
+mod common;
+
 use pvcore::run::*;
 
 fn main() {
-    main_with(&[])
+    main_with(&[
+        Entry { id: "C07", level: "model_checking", meta: c07::meta, run: c07::run, replay: c07::replay },
+        Entry { id: "C11", level: "exploration", meta: c11::meta, run: c11::run, replay: c11::replay },
+        Entry { id: "C17", level: "model_checking", meta: c17::meta, run: c17::run, replay: c17::replay },
+    ])
 }
